@@ -156,22 +156,26 @@ Qed.
 Lemma sc_MovingMax k m (c : expr I R) : 0 < k -> escalI (sc k) c -> escalI (sc k) (trend_MovingMax_Compute m c).
 Proof.
   intros Hk H. unfold trend_MovingMax_Compute. apply sc_skip.
-  eapply sc_op2st with (RS := tree_sc k) (RA := sc k) (RB := sc k); auto.
+  eapply sc_op2st with (RS := fun s t : bst R * Z => tree_sc k (fst s) (fst t) /\ snd t = snd s)
+                       (RA := sc k) (RB := sc k); auto.
   - apply sc_shift; auto. sc_arith.
-  - reflexivity.
-  - intros s t x x' y y' Hs Hx Hy. unfold tree_sc, sc in *. subst. simpl.
-    unfold bst_remove, bst_insert, bst_max. simpl.
-    rewrite insert_scale, remove_scale, tmax_scale; auto.
+  - split; reflexivity.
+  - intros [s n] [t n'] x x' y y' [Hs Hn] Hx Hy. unfold tree_sc, sc in *. simpl in Hs, Hn. subst.
+    unfold bst_remove, bst_insert, bst_max. cbn [nleb nltb neqb nzero NumR].
+    destruct (Z.ltb n _); cbn [fst snd];
+      rewrite insert_scale, ?remove_scale, tmax_scale; auto.
 Qed.
 Lemma sc_MovingMin k m (c : expr I R) : 0 < k -> escalI (sc k) c -> escalI (sc k) (trend_MovingMin_Compute m c).
 Proof.
   intros Hk H. unfold trend_MovingMin_Compute. apply sc_skip.
-  eapply sc_op2st with (RS := tree_sc k) (RA := sc k) (RB := sc k); auto.
+  eapply sc_op2st with (RS := fun s t : bst R * Z => tree_sc k (fst s) (fst t) /\ snd t = snd s)
+                       (RA := sc k) (RB := sc k); auto.
   - apply sc_shift; auto. sc_arith.
-  - reflexivity.
-  - intros s t x x' y y' Hs Hx Hy. unfold tree_sc, sc in *. subst. simpl.
-    unfold bst_remove, bst_insert, bst_min. simpl.
-    rewrite insert_scale, remove_scale, tmin_scale; auto.
+  - split; reflexivity.
+  - intros [s n] [t n'] x x' y y' [Hs Hn] Hx Hy. unfold tree_sc, sc in *. simpl in Hs, Hn. subst.
+    unfold bst_remove, bst_insert, bst_min. cbn [nleb nltb neqb nzero NumR].
+    destruct (Z.ltb n _); cbn [fst snd];
+      rewrite insert_scale, ?remove_scale, tmin_scale; auto.
 Qed.
 Lemma eq_MovingMax m (c : expr I R) : escalI eq c -> escalI eq (trend_MovingMax_Compute m c).
 Proof. intros. apply sc1_eq. apply sc_MovingMax. lra. apply eq_sc1; auto. Qed.
